@@ -1,6 +1,7 @@
 package props
 
 import (
+	"strings"
 	"encoding/json"
 	"fmt"
 	"os"
@@ -56,6 +57,10 @@ var c02Catalogue = []string{
 	"skx-signed-by-enc-key",  // genuine certificate pair, but the peer holds only the encryption key and signs ServerKeyExchange with it
 	"valid-then-expired",     // an honest connection succeeds; later the same configuration (same root pool object) reports a time after the certificates' end
 	"valid-then-expired-resume", // same with a session cache: the server tries to resume the session made while the certificates were valid
+	// after-session:<x>: the client holds a session from an honest connection to this address (shared cache) and offers
+	// it; the peer now at the address declines to resume and does a full handshake as impostor <x>
+	"after-session:honest", "after-session:untrusted-ca", "after-session:mixed-ca", "after-session:expired", "after-session:swapped",
+	"after-session:single-cert", "after-session:skx-other-key", "after-session:no-enc-key",
 }
 
 func (c02) ID() string    { return "C02" }
@@ -107,6 +112,7 @@ func (c02) Make(tier string, seed uint64, i int) *Case {
 
 // c02MustFail says whether the client has to refuse this impostor.
 func c02MustFail(imp string, skip bool) bool {
+	imp = strings.TrimPrefix(imp, "after-session:")
 	switch imp {
 	case "honest", "late-honest", "honest-short-rand":
 		return false
@@ -158,7 +164,10 @@ func (c02) Run(c *Case, src *vs.Src) *Result {
 		o.SigKey, o.EncKey = sm2Key(base+"_sig"), sm2Key(base+"_enc")
 		ownEnc = base + "_enc"
 	}
-	switch p.Impostor {
+	honest := *o
+	honestOps := append([]string{}, ops...)
+	afterSession := strings.HasPrefix(p.Impostor, "after-session:")
+	switch strings.TrimPrefix(p.Impostor, "after-session:") {
 	case "untrusted-ca":
 		use("server_untrusted")
 	case "expired":
@@ -298,6 +307,18 @@ func (c02) Run(c *Case, src *vs.Src) *Result {
 		o2 := *o
 		o2.Resume, o2.Master = true, h1.Peer.Master
 		co, _, _ = runConn(1, &c2, &o2, []string{"rCH", "SH", "CCS", "FIN", "rFLIGHT", "APP", "rAPP"})
+	} else if afterSession {
+		c1 := *cc
+		c1.Cache = "shared"
+		devEnc := ownEnc
+		ownEnc = "server_enc"
+		first, _, _ := runConn(0, &c1, &honest, honestOps)
+		if first.hsErr != nil || first.reason != vs.Done {
+			r.Violate("setup", sigp+" setup-failed", "the honest first connection failed: %v (%s)", first.hsErr, first.reason)
+			return r
+		}
+		ownEnc = devEnc
+		co, _, _ = runConn(1, &c1, o, ops)
 	} else if p.Impostor == "resume-other-name" {
 		c1 := *cc
 		c1.Cache = "shared"
